@@ -264,18 +264,20 @@ mutual
 /-- verifyTDagRec(n, depth, {Direct = w, LayerRepeat = 4}) without the codec / prefix checks:
 depth 0 ⇒ no links; otherwise a branch node whose child `i < w` verifies at depth 0 and whose child
 `i ≥ w` verifies at `rdepth = (i - w) / 4 + 1`, with `rdepth < depth` required when `depth > 0`.
-`fuel` bounds the recursion depth (height of the tree). -/
+`tshapeL strict`: with `strict = false` the check of the direct blocks (`i < w`) is skipped — the relaxed
+form is what a balanced root that later grows through trickle.Append satisfies (used by C10 only);
+`tshape` itself is always the strict predicate. -/
 def tshape (w : Nat) : Int → FNode → Bool
   | depth, .leaf _ => depth == 0
-  | depth, .node _ cs => depth != 0 && tshapeL w depth 0 cs
-def tshapeL (w : Nat) : Int → Nat → List (FNode × Nat) → Bool
+  | depth, .node _ cs => depth != 0 && tshapeL true w depth 0 cs
+def tshapeL (strict : Bool) (w : Nat) : Int → Nat → List (FNode × Nat) → Bool
   | _, _, [] => true
   | depth, i, c :: r =>
-    (if i < w then tshape w 0 c.1
+    (if i < w then (!strict || tshape w 0 c.1)
      else
       let rdepth : Int := ((i - w) / depthRepeat + 1 : Nat)
       !(rdepth ≥ depth && depth > 0) && tshape w rdepth c.1)
-    && tshapeL w depth (i + 1) r
+    && tshapeL strict w depth (i + 1) r
 end
 
 end C07
